@@ -815,17 +815,17 @@ impl Compiler {
 
                 self.builder.free_register(cmp_reg);
                 self.builder.free_register(test_reg);
-            } else {
-                // Default case - save for later
-                default_jump = Some(self.builder.emit_jump());
             }
         }
 
-        // Jump to end if no case matched (and no default)
-        let jump_to_end = if default_jump.is_none() {
-            Some(self.builder.emit_jump())
-        } else {
+        // No case matched: go to the default clause, wherever it stands among the cases,
+        // or to the end
+        let has_default = switch_stmt.cases.iter().any(|case| case.test.is_none());
+        let jump_to_end = if has_default {
+            default_jump = Some(self.builder.emit_jump());
             None
+        } else {
+            Some(self.builder.emit_jump())
         };
 
         // Second pass: emit case bodies
